@@ -10,24 +10,29 @@
 (* Values: all fields zero ("z"), or all non-zero ("n") except at most one field that is zero/nil    *)
 (* ("z") or empty-but-not-nil ("e"): nil at each pointer / interface / slice / map position.         *)
 EXTENDS Integers, Sequences, FiniteSets, TLC, Json
-CONSTANTS HotKinds, HotTags, NbrSet, MaxFields, EmbKinds, TwoVariant
+CONSTANTS HotKinds, HotTags, NbrSet, MaxFields, EmbKinds, TwoVariant, NameMenu
 
 VARIABLES fs
 \* neighbour menus (a configuration file cannot hold records)
 Nbr == IF NbrSet = "quick" THEN {[k |-> "int", t |-> ""], [k |-> "string", t |-> "nmoe"]}
        ELSE {[k |-> "int", t |-> ""], [k |-> "string", t |-> "nmoe"], [k |-> "*int", t |-> "oe"], [k |-> "E1", t |-> ""]}
 Names == <<"Aa", "Bb", "Cc", "Dd">>
-EmbName(k) == IF k = "E2" THEN "E2" ELSE IF k = "E3" THEN "E3" ELSE "E1"
+EmbName(k) == IF k \in {"E2", "E3", "E4"} THEN k ELSE "E1"
 Variants(k) == IF k \in TwoVariant THEN {"z", "n"} ELSE {"z", "n", "e"}
 IsNbr(f) == \E x \in Nbr : x.k = f.k /\ x.t = f.t
-Hot(s) == Cardinality({i \in 1..Len(s) : ~IsNbr(s[i])})
+\* a name probe (an int field whose name comes from NameMenu: lengths 1..4, all-caps and mixed caps; the three hand-copied
+\* builders each have their own copy of the lower-casing rule) counts as the one hot field of a shape
+Hot(s) == Cardinality({i \in 1..Len(s) : ~IsNbr(s[i]) \/ s[i].n \in NameMenu})
 ValOK(s) == (\A i \in 1..Len(s) : s[i].v = "z") \/ Cardinality({i \in 1..Len(s) : s[i].v # "n"}) <= 1
 NamesOK(s) == \A i, j \in 1..Len(s) : i # j => s[i].n # s[j].n
 
 Init == fs = <<>>
 Add(k, t, v) == /\ Len(fs) < MaxFields
                 /\ fs' = Append(fs, [n |-> IF k \in EmbKinds THEN EmbName(k) ELSE Names[Len(fs) + 1], k |-> k, t |-> t, v |-> v])
-Next == \/ \E k \in HotKinds, t \in HotTags, v \in {"z", "n", "e"} : v \in Variants(k) /\ (k \in EmbKinds => t = "") /\ Add(k, t, v)
+Probe(n, v) == /\ Len(fs) < MaxFields
+               /\ fs' = Append(fs, [n |-> n, k |-> "int", t |-> "", v |-> v])
+Next == \/ \E n \in NameMenu, v \in {"z", "n"} : Probe(n, v)
+        \/ \E k \in HotKinds, t \in HotTags, v \in {"z", "n", "e"} : v \in Variants(k) /\ (k \in EmbKinds => t = "") /\ Add(k, t, v)
         \/ \E x \in Nbr, v \in {"z", "n", "e"} : v \in Variants(x.k) /\ Add(x.k, x.t, v)
 OK == Hot(fs) <= 1 /\ ValOK(fs) /\ NamesOK(fs)
 Emit == OK /\ (fs = <<>> \/ PrintT(<<"CASE", ToJson([f |-> fs])>>))
